@@ -109,6 +109,10 @@ pub fn validate_uncompressed_name(octets: &[u8], use_all: bool) -> Result<usize,
 /// to be passed in `octets`. This is the implementation of
 /// [`Name::try_from_compressed`].
 pub fn parse_compressed_name(octets: &[u8], start: usize) -> Result<(Box<Name>, usize), Error> {
+    if start >= octets.len() {
+        return Err(Error::UnexpectedEom);
+    }
+
     let mut next_chunk = Some(start);
     let mut wire_len_of_first_chunk = None;
 
